@@ -106,6 +106,17 @@ CHECKS["C17"] = dict(
     design_ref="DESIGN.md section 6, C17",
 )
 
+CHECKS["C04"] = dict(
+    category="other",
+    technique="table reading from MIR (lookup type match table, lookup flag masks and decision order, reader dispatch agreement), container-type and who-may-touch rule on the lookup accumulators, CFG ordering rule for rvrn, enum-dispatch exhaustiveness, provenance of match positions from the flag-aware iterator, call-graph SCC depth-guard rule",
+    text=("Static decision of the structural clauses of C04: lookups of the enabled features are accumulated in a BTreeMap keyed by lookup index "
+          "and consumed in key order (lookup-list order, each once), rvrn first; GSUB lookup type numbers, lookup flag masks and the IGNORE_MARKS "
+          "precedence equal the specification; the reader builds the subtable type of each lookup kind; every dispatcher lists all seven kinds; "
+          "positions inside a matched sequence come from the lookup-flag-aware iterator; nested lookups are depth bounded. Glyph matching, "
+          "context rule selection, iteration arithmetic and ligature bookkeeping are not decided."),
+    design_ref="DESIGN.md section 6, C04",
+)
+
 NOT_APPLICABLE = {
     "C05": "every clause is a numeric relation between table contents and output values; the structural parts (termination, borrow and panic discipline, attachment index validation) are decided under C02; no GPOS-specific clause is visible in the shape of the code",
 }
